@@ -8,6 +8,7 @@ and a module needing more than 256 ids must be refused.
 """
 from __future__ import annotations
 
+import json
 import shutil
 import tempfile
 
@@ -34,6 +35,12 @@ def cases(draw):
     if k == 0:
         n = draw(st.sampled_from([1, 2, 254, 255, 256, 257, 258, 300]))
         return {'kind': 'symbols', 'n': n, 'shape': draw(st.sampled_from(['one-axiom', 'many-axioms', 'claim']))}
+    if k == 2:
+        # a theory with many axioms, a few of them claimed (proved by loading them): memory slots close to the 256 a Load can
+        # address; the published files must be the declaration under both optimise settings, and neither may be refused
+        n = draw(st.sampled_from([60, 100, 127, 128, 129, 130, 160, 200]))
+        return {'kind': 'theory', 'scale': {'n': n, 'shape': draw(st.sampled_from(['twice', 'chain', 'imp'])), 'lemma': False,
+                                             'picks': sorted(set([0, n - 1] + draw(st.lists(st.integers(0, n - 1), max_size=2))))}}
     if k == 1:
         return {'kind': 'varid', 'which': draw(st.sampled_from(['evar', 'svar', 'metavar', 'exists', 'mu'])), 'id': draw(st.sampled_from([0, 200, 255, 256, 257, 1000]))}
     return {'kind': 'module', 'desc': draw(MD.module_descs())}
@@ -117,6 +124,16 @@ def body(c, stats: Stats):
                    + (['has-diamond'] if 'ref' in repr(desc) else []) + (['has-lemma-claims'] if desc.get('use_prop') else []),
                    {'modules': nmods, 'axioms': [R.show(a) for a in built.gamma_order][:8], 'claims': [R.show(x) for x in built.claims][:4], 'refused': errs})
         return
+    if c['kind'] == 'theory':
+        from checks.c02 import scale_module
+
+        module = scale_module(c['scale'])
+        files, errs = serialize_both(module, c, 'theory of %d axioms' % c['scale']['n'])
+        stats.case(('theory', json.dumps(c['scale'], sort_keys=True)), True, ['scale-theory', 'refused' if errs else 'encoded'], {'axioms': c['scale']['n'], 'refused': errs})
+        check_files(c, files, [R.from_repo(a) for a in module._axioms], [R.from_repo(x) for x in module._claims], 'theory of %d axioms' % c['scale']['n'])
+        if errs:
+            raise Violation('a theory of %d axioms over %d symbols (claims: axioms %s) was refused: %s' % (c['scale']['n'], c['scale']['n'], c['scale']['picks'], errs), c, 'refused-theory')
+        return
     if c['kind'] == 'symbols':
         n = c['n']
         syms = [P.Symbol('sym_%d' % i) for i in range(n)]
@@ -141,7 +158,7 @@ def body(c, stats: Stats):
             # it returned: then the decoded files must still equal the declaration, which they cannot
             pass
         check_files(c, files, [R.from_repo(a) for a in module._axioms], claims, '%d symbols' % n)
-        if n <= 256 and errs and c['shape'] != 'many-axioms':
+        if n <= 256 and errs:
             raise Violation('a module with %d <= 256 distinct symbols was refused: %s' % (n, errs), c, 'refused-small')
         return
     if c['kind'] == 'varid':
